@@ -225,7 +225,15 @@ def run(prog, rep, tier):
     rets = S.select("return", qname=f.qname)
     # np.empty is as good as np.zeros here: the loop runs over self.ordering, a permutation of all p columns, and writes each
     ok = zeros_of(li["init"].get(name), shapes=[zeros[2][0]], allow_empty=True) and len(rets) == 1 and rets[0].value == ("after", lid, name)
-    rep.check("SHAPE.result", ok, fwhere(f), "result = zeros((n, self.p)) filled column by column", "result is not the n x p array filled by the loop")
+    init_ = li["init"].get(name)
+    fresh_other_shape = isinstance(init_, tuple) and init_ and init_[0] == "ext" and init_[1] in ("numpy.zeros", "numpy.empty", "numpy.ones", "numpy.full", "numpy.zeros_like")
+    if ok:
+        rep.ok("SHAPE.result", fwhere(f), "result = zeros((n, self.p)) filled column by column")
+    elif fresh_other_shape or (len(rets) == 1 and zeros_of(init_, shapes=[zeros[2][0]], allow_empty=True)):
+        # a fresh array of another shape / dtype / fill, or the right array but something else is returned: decided
+        rep.bad("SHAPE.result", fwhere(f), "result is not the n x p array filled by the loop")
+    else:
+        rep.unk("SHAPE.result", fwhere(f), "the array the loop fills is prepared in a way these rules do not read (%s)" % fmt(init_)[:80])
     rep.check("STATE.sample", not S.select("attrstore", qname=f.qname), fwhere(f), "sample does not touch the model's attributes", "sample rebinds model attributes")
     # constructor
     fc = need(prog, AN + "__init__")
